@@ -90,6 +90,37 @@ def r13_8(ctx: Ctx) -> None:
                       "a duplicated member name is rewritten to `<name>_<n>` but folders may still be extracted in parallel: members `a`, `a`, `a_0` in three folders make two "
                       "workers write `<out>/a_0`, and which content survives depends on the schedule (sequential extraction keeps the real `a_0`)",
                       construct="parallel with renamed duplicates")
+    # (c) two DIFFERENT names can lead to one output path ('a' and 'x/../a', 'a' and './a'): every output path goes into a set, and a path
+    # that is already in it sets a flag `parallel` depends on
+    adds = [c for c in q.calls(f) if attr_tail(c) == "add" and isinstance(c.func.value, ast.Name) and c.args and isinstance(c.args[0], ast.Name)]
+    path_sets = {}
+    for c in adds:
+        vals = q.assigned_values(f, c.args[0].id)
+        if any(isinstance(v, ast.Call) and (dotted(v.func) or "").endswith("get_sanitized_output_path") for v in vals):
+            path_sets[c.func.value.id] = c
+    ctx.floor("R13.8", len(path_sets), 1, "set of output paths in _extract")
+    cfg = cfg_of(f.node)
+    for sname, addc in sorted(path_sets.items()):
+        tests = [t for t in cfg.nodes if t.kind == "test" and isinstance(t.ast, ast.Compare) and len(t.ast.ops) == 1 and isinstance(t.ast.ops[0], ast.In)
+                 and norm(t.ast.comparators[0]) == sname and norm(t.ast.left) == norm(addc.args[0])]
+        ok = False
+        for t in tests:
+            te = next((e for e in t.succ if e.kind == "true"), None)
+            if te is None or not cfg.reaches(t, q.node_for(f, addc)):
+                continue  # the membership test must come before the path is added
+            sets = [n for n in walk(f.node) if isinstance(n, ast.Assign) and isinstance(n.value, ast.Constant) and n.value.value is True and isinstance(n.targets[0], ast.Name)
+                    and any(pol and cd is t.ast for cd, pol in q.facts_at(f, n))]
+            for c in wcalls:
+                par = next((k.value for k in c.keywords if k.arg == "parallel"), c.args[2] if len(c.args) > 2 else None)
+                srcs = [par] + list(q.sources_of(f, par, depth=3)) if par is not None else []
+                if any(isinstance(x, ast.Name) and x.id in {s_.targets[0].id for s_ in sets} for e in srcs for x in ast.walk(e)):
+                    ok = True
+        # every member's path is added: the add is not conditional on the test
+        every = addc is not None and not any(pol is not None and isinstance(cd, ast.Compare) and norm(cd.comparators[0]) == sname for cd, pol in q.facts_at(f, addc) if isinstance(cd, ast.Compare) and cd.comparators)
+        ctx.check(ok and every, "R13.8", f, addc, "members that share an output path are extracted in archive order",
+                  f"two members with different names can be written to one output path ('a' and 'x/../a'): the set `{sname}` of output paths is not consulted before a path is added, "
+                  "or a hit does not switch parallel extraction off - two workers write the same file and the schedule decides whose content survives",
+                  construct="same output path in parallel")
     init = shared.szf(ctx, "__init__")
     opens = [c for c in q.calls(init) if dotted(c.func) == "open" and c.args]
     ctx.floor("R13.8", len(opens), 1, "open() of the archive in the constructor")
